@@ -49,12 +49,24 @@ KF2(e, subj) ==
 (* C11-KF3  AdvancedRadixSort, LSD strategy with use_simd on AVX2+BMI2 hosts: the digit        *)
 (* counting of inputs of >= 16 elements truncates every key to its low 32 bits                 *)
 (* (count_digits_avx2_bmi2), the distribution uses the full key: with a key >= 2^32 the         *)
-(* bucket offsets are wrong and the distribution indexes past the buffer (panic).              *)
+(* bucket offsets are wrong: the distribution indexes past the buffer (panic) or, when the     *)
+(* offsets stay inside it, overwrites elements and returns Ok.                                 *)
 G3(e, subj) ==
     /\ subj.fam = "adv" /\ subj.simd /\ subj.strategy \in {"lsd", "auto"}
-    /\ e.op = "panic" /\ e.in = "sort" /\ e.kind = "oob"
-    /\ e.hi32 /\ e.len >= 16
-KF3(e, subj) == G3(e, subj)
+    /\ \/ /\ e.op = "panic" /\ e.in = "sort" /\ e.kind = "oob"
+          /\ e.hi32 /\ e.len >= 16
+       \/ /\ e.op = "sort" /\ e.ok /\ e.hi32 /\ Len(e.in) >= 16
+          /\ ~ SortOK(e.kt, e.ord, e.ok, e.in, e.out)
+       \/ /\ e.op = "sort_big" /\ e.ok /\ e.hi32
+          /\ ~ BigOK(e.ok, e.len_in, e.len_out, e.bag_in, e.bag_out, e.inv)
+(* when the wrong offsets stay inside the buffer there is no panic: elements are overwritten  *)
+(* (lost / duplicated) or left unsorted, and Ok is returned; all that can be said is that the  *)
+(* length is kept and no value is invented                                                     *)
+KF3(e, subj) ==
+    /\ G3(e, subj)
+    /\ \/ e.op = "panic"
+       \/ e.op = "sort" /\ Len(e.out) = Len(e.in) /\ Elems(e.out) \subseteq Elems(e.in)
+       \/ e.op = "sort_big" /\ e.len_out = e.len_in
 
 (* ---------------------------------------------------------------------------------------- *)
 (* C11-KF4  AdvancedRadixSort<RadixString> (AdvancedStringRadixSort): insertion sort, the      *)
